@@ -57,25 +57,25 @@ type stateSnap struct {
 	Total    uint64
 	LastSeq  uint32
 	Buffered int
-	Accepted int // points of writes that had returned nil when the snapshot was taken
+	Accepted int  // points of writes that had returned nil when the snapshot was taken
 	Busy     bool // a write/flush on this stream was in flight
 }
 
 type upH struct {
-	Idx     int
-	Spec    upSpec
-	U       *iscp.Upstream
-	B       *bUp
-	Writes  []*writeRec
-	Flushes []*Op
-	Before  []hookBeforeRec
-	After   []hookAfterRec
+	Idx       int
+	Spec      upSpec
+	U         *iscp.Upstream
+	B         *bUp
+	Writes    []*writeRec
+	Flushes   []*Op
+	Before    []hookBeforeRec
+	After     []hookAfterRec
 	ClosedEv  []string
 	ResumedEv []time.Duration
-	CloseOp *Op
-	Snaps   []stateSnap
-	counter int
-	OpenOp  *Op
+	CloseOp   *Op
+	Snaps     []stateSnap
+	counter   int
+	OpenOp    *Op
 }
 
 type readRec struct {
@@ -84,39 +84,39 @@ type readRec struct {
 }
 
 type downSpec struct {
-	QoS       message.QoS
-	Sources   []string
-	PreIDs    []message.DataID
-	AckFlush  time.Duration
+	QoS      message.QoS
+	Sources  []string
+	PreIDs   []message.DataID
+	AckFlush time.Duration
 }
 
 type downH struct {
-	Idx    int
-	Spec   downSpec
-	D      *iscp.Downstream
-	B      *bDown
-	Reads  []*Op
+	Idx       int
+	Spec      downSpec
+	D         *iscp.Downstream
+	B         *bDown
+	Reads     []*Op
 	MetaReads []*Op
 	ClosedEv  []string
 	ResumedEv []time.Duration
-	CloseOp *Op
-	OpenOp  *Op
+	CloseOp   *Op
+	OpenOp    *Op
 }
 
 type Sys struct {
-	s    *Sim
-	Conn *iscp.Conn
-	ConnOp *Op
-	Ups  []*upH
-	Downs []*downH
-	Enc  iscp.EncodingName
+	s                         *Sim
+	Conn                      *iscp.Conn
+	ConnOp                    *Op
+	Ups                       []*upH
+	Downs                     []*downH
+	Enc                       iscp.EncodingName
 	PingInterval, PingTimeout time.Duration
-	TokenCalls  int
-	TokenFail   int // next n Token() calls fail
-	Tokens      []string
-	Disconnected []time.Duration
-	Reconnected  []time.Duration
-	CloseOp *Op
+	TokenCalls                int
+	TokenFail                 int // next n Token() calls fail
+	Tokens                    []string
+	Disconnected              []time.Duration
+	Reconnected               []time.Duration
+	CloseOp                   *Op
 }
 
 func newSys(s *Sim, bc BrokerCfg) *Sys {
@@ -269,13 +269,12 @@ func (y *Sys) openUpOp(spec upSpec) *Op {
 		if err != nil {
 			return nil, err
 		}
-		y.s.mu.Lock()
-		h.U = u
-		y.s.mu.Unlock()
-		return fmt.Sprintf("up %x", u.ID[12:]), nil
+		return u, nil
 	}}
 	op.OnDone = func(op *Op) {
-		if h.U != nil {
+		// assigned by the scheduler at harvest time, so that the handle is scheduler-owned state
+		if u, ok := op.Res.(*iscp.Upstream); ok && u != nil {
+			h.U = u
 			h.B = y.s.Broker.upByID(h.U.ID)
 		}
 	}
@@ -393,8 +392,11 @@ func (y *Sys) snapshot(h *upH) stateSnap {
 // --- network helpers (root goroutine) ---
 
 func (y *Sys) aliveLinks() []*Link {
+	y.s.mu.Lock()
+	links := append([]*Link(nil), y.s.Net.Links...)
+	y.s.mu.Unlock()
 	var out []*Link
-	for _, l := range y.s.Net.Links {
+	for _, l := range links {
 		if l.Alive() {
 			out = append(out, l)
 		}
@@ -514,13 +516,11 @@ func (y *Sys) openDownOp(spec downSpec) *Op {
 		if err != nil {
 			return nil, err
 		}
-		y.s.mu.Lock()
-		h.D = d
-		y.s.mu.Unlock()
-		return fmt.Sprintf("down %x", d.ID[12:]), nil
+		return d, nil
 	}}
 	op.OnDone = func(op *Op) {
-		if h.D != nil {
+		if d, ok := op.Res.(*iscp.Downstream); ok && d != nil {
+			h.D = d
 			h.B = y.s.Broker.downByID(h.D.ID)
 		}
 	}
